@@ -79,6 +79,34 @@ pub fn expand(family: &str, l: usize) -> String {
                 s.push_str(&format!("input In{i} {{ nest: [In{next}] }}\n"));
             }
         }
+        "input_lasso_nonnull" => {
+            s.push_str("type Query { field(arg: T1): Boolean }\ninput T1 { next: T2! }\ninput T2 { next: In1! }\n");
+            for i in 1..=l {
+                let next = if i == l { 1 } else { i + 1 };
+                s.push_str(&format!("input In{i} {{ nest: In{next}! }}\n"));
+            }
+        }
+        "interface_lasso" => {
+            s.push_str("type Query { f: T1 }\ninterface T1 implements T2 { x: Int }\ninterface T2 implements I1 { x: Int }\n");
+            for i in 1..=l {
+                let next = if i == l { 1 } else { i + 1 };
+                s.push_str(&format!("interface I{i} implements I{next} {{ x: Int }}\n"));
+            }
+        }
+        "directive_lasso_input" => {
+            s.push_str("type Query { field: Int }\ninput T1 { f: Int @t1 }\ndirective @t1(arg: T2) on INPUT_FIELD_DEFINITION\ninput T2 { f: Int @t2 }\ndirective @t2(arg: I1) on INPUT_FIELD_DEFINITION\n");
+            for i in 1..=l {
+                let next = if i == l { 1 } else { i + 1 };
+                s.push_str(&format!("input I{i} {{ f: Int @d{i} }}\ndirective @d{i}(arg: I{next}) on INPUT_FIELD_DEFINITION\n"));
+            }
+        }
+        "frag_lasso" => {
+            s.push_str("type Query { a: Query b: Int }\nquery Q { ...t1 }\nfragment t1 on Query { a { ...t2 } }\nfragment t2 on Query { a { ...f1 } b }\n");
+            for i in 1..=l {
+                let next = if i == l { 1 } else { i + 1 };
+                s.push_str(&format!("fragment f{i} on Query {{ a {{ ...f{next} }} }}\n"));
+            }
+        }
         "interface_chain" => {
             s.push_str("type Query { f: I0 }\n");
             for i in 0..l {
